@@ -4,15 +4,53 @@ from lib import common as C, het as H
 
 GEN = ['HetFacts']
 IMPORTS = ['C08/kernel_weights', 'C08/lottery_1d_laws', 'C08/lottery_2d_laws', 'C08/markov_laws', 'C08/combined_shock_product_rule', 'C17/robust_bracket', 'C17/coord_reproduces_query', 'C17/monotone_equals_robust']
-TRUSTED = ['C08 (Kronecker product vs dimension-wise Markov steps is checked there against dense references), C09']
-ASSUMPTIONS = ['the Coq theorem only states that two loops presenting the same step and expectation operators record the same values; that HetBlock and StageBlock (and '
-               'multi-dimensional vs Kronecker exogenous states) do so is checked by paired runs on the implementation',
+TRUSTED = ['C08 (transition operators), C09 (loops)']
+ASSUMPTIONS = ['the Coq theorems state that two loops presenting the same step and expectation operators record the same values, and that dimension-wise Markov transitions equal the '
+               'Kronecker-product transition (all sizes); that HetBlock and StageBlock present the same operators is checked by paired runs on the implementation',
                'two-dimensional continuous stages: the two-asset household vs its Continuous2D stage rendition (D8, the AttributeError of the linearised 2-D lottery, found here and fixed)']
 HEADER = ''
 
 
+HEADER_KRON = ('From Coq Require Import ZArith List.\nFrom SSJ Require Import Model.Transitions Model.Kron.\nImport ListNotations.\nOpen Scope Z_scope.\n')
+
+
 def correspondence(ctx):
-    return dict(evaluations=0, distinct_nontrivial=0, rule='none (see oracle)', samples=[], disagreements=[], stats={})
+    """CombinedTransition of two Markov stages, one Markov stage with np.kron of the matrices, and multiply_ith_dimension, on integer data, vs Model/Kron.v (exact)"""
+    from sequence_jacobian.blocks.support import het_support as hs
+    rng = ctx['rng']
+    n = 120 if ctx['tier'] == 'quick' else 1200
+    cases, exprs = [], []
+    for _ in range(n):
+        n1, n2 = rng.randint(1, 4), rng.randint(1, 4)
+        mk = lambda r, c: [[rng.randint(-3, 4) for _ in range(c)] for _ in range(r)]
+        cases.append(dict(n1=n1, n2=n2, P1=mk(n1, n1), P2=mk(n2, n2), D=mk(n1, n2)))
+        c = cases[-1]
+        exprs.append(f'run_kron {n1} {n2} {C.coq_mat(c["P1"])} {C.coq_mat(c["P2"])} {C.coq_mat(c["D"])}')
+    vals, logs = C.eval_in_coq('C10', HEADER_KRON, exprs, chunk=30, tag='kron')
+    dis = []
+    for c, vm in zip(cases, vals):
+        if vm is None:
+            continue
+        fs, es, K, fk, ek = vm
+        P1, P2, D = (np.array(c[k], dtype=float) for k in ('P1', 'P2', 'D'))
+        try:
+            ct = hs.CombinedTransition([hs.Markov(P1, 0), hs.Markov(P2, 1)])
+            mk_ = hs.Markov(np.kron(P1, P2), 0)
+            got = dict(fwd_seq=ct.forward(D).tolist(), exp_seq=ct.expectation(D).tolist(), kron=np.kron(P1, P2).tolist(),
+                       fwd_kron=mk_.forward(D.reshape(-1, 1)).ravel().tolist(), exp_kron=mk_.expectation(D.reshape(-1, 1)).ravel().tolist())
+            model = dict(fwd_seq=[[float(x) for x in r] for r in fs], exp_seq=[[float(x) for x in r] for r in es], kron=[[float(x) for x in r] for r in K],
+                         fwd_kron=[float(x) for x in fk], exp_kron=[float(x) for x in ek])
+            ok = got == model
+        except Exception as ex:
+            got, model, ok = f'raised {type(ex).__name__}: {ex}', None, False
+        if not ok:
+            dis.append(dict(what='dimension-by-dimension Markov transitions / Kronecker-product transition differ from the model', case=c, impl=got, model=model))
+    for l in logs:
+        dis.append(dict(what='coq evaluation failed', log=l))
+    return dict(evaluations=len(exprs), distinct_nontrivial=len({C.canon(c) for c in cases}),
+                rule='integer matrices Pi1 (n1 x n1), Pi2 (n2 x n2), state arrays D (n1 x n2), sizes 1-4: CombinedTransition([Markov(Pi1, 0), Markov(Pi2, 1)]).forward / .expectation and '
+                     'Markov(np.kron(Pi1, Pi2), 0).forward / .expectation on the flattened array, compared exactly with Model/Kron.v',
+                samples=cases[:1], disagreements=dis, stats={})
 
 
 def pair_checks(name, b1, ss1, b2, ss2, inputs, outputs, T, out, jtol, shocks, sstol=1e-7, nltol=1e-7):
